@@ -23,7 +23,10 @@ type C08Action struct {
 	// content (a touch, or a save that changes nothing)
 	Files []int    `json:"files,omitempty"`
 	Texts []string `json:"texts,omitempty"`
-	Text  string   `json:"text,omitempty"`
+	// Recreate[k]: the file is replaced the way an atomic save or a checkout does it — the notification
+	// carries Deleted and then Created for the same path (the file exists when the server looks)
+	Recreate []bool `json:"recreate,omitempty"`
+	Text     string `json:"text,omitempty"`
 	// Incremental: for edit, send the new text as one incremental replacement of the whole old text
 	Incremental bool `json:"incremental,omitempty"`
 }
@@ -126,17 +129,27 @@ func genC08(t *rapid.T) C08Case {
 				closed = append(closed, j)
 			}
 		}
-		if len(closed) >= 2 && rapid.IntRange(0, 5).Draw(t, "batch") == 0 {
+		if len(closed) >= 1 && rapid.IntRange(0, 5).Draw(t, "batch") == 0 {
 			a := C08Action{Kind: "batch", File: closed[0]}
 			for _, j := range closed {
-				switch rapid.IntRange(0, 2).Draw(t, "batchKind") {
+				switch rapid.IntRange(0, 3).Draw(t, "batchKind") {
 				case 0:
-					a.Files, a.Texts = append(a.Files, j), append(a.Texts, c08Content(t, j, nf))
+					a.Files, a.Texts, a.Recreate = append(a.Files, j), append(a.Texts, c08Content(t, j, nf)), append(a.Recreate, false)
 				case 1:
-					a.Files, a.Texts = append(a.Files, j), append(a.Texts, c08Same)
+					a.Files, a.Texts, a.Recreate = append(a.Files, j), append(a.Texts, c08Same), append(a.Recreate, false)
+				case 2:
+					txt := c08Same
+					if rapid.Bool().Draw(t, "recreateNew") {
+						txt = c08Content(t, j, nf)
+					}
+					a.Files, a.Texts, a.Recreate = append(a.Files, j), append(a.Texts, txt), append(a.Recreate, true)
 				}
 			}
-			if len(a.Files) >= 2 {
+			recreates := false
+			for _, r := range a.Recreate {
+				recreates = recreates || r
+			}
+			if len(a.Files) >= 2 || recreates {
 				c.Actions = append(c.Actions, a)
 				continue
 			}
@@ -273,7 +286,12 @@ func checkC08(c C08Case, env *Env) *Violation {
 				}
 				// a touch rewrites the same bytes
 				req.Steps = append(req.Steps, proto.Step{Op: "write", Path: c08Name(j), Data: []byte(disk[j])})
-				evs = append(evs, [2]interface{}{c08Name(j), 2})
+				if k < len(a.Recreate) && a.Recreate[k] {
+					evs = append(evs, [2]interface{}{c08Name(j), 3}, [2]interface{}{c08Name(j), 1})
+					hasDeleteOrCreate = true
+				} else {
+					evs = append(evs, [2]interface{}{c08Name(j), 2})
+				}
 			}
 			req.Steps = append(req.Steps, harness.Watched(evs...))
 		case "open":
@@ -410,6 +428,9 @@ func c08Show(c *C08Case) string {
 			fmt.Fprintf(&b, "%d. batch of Changed events:", i)
 			for k, j := range a.Files {
 				fmt.Fprintf(&b, " %s=%q", c08Name(j), a.Texts[k])
+				if k < len(a.Recreate) && a.Recreate[k] {
+					b.WriteString("(Deleted+Created)")
+				}
 			}
 			b.WriteString("\n")
 			continue
